@@ -86,13 +86,19 @@ def _main(a, prop, seed, t0):
     # ---- collect per-name status
     by_name = {}
     canary_bad = []
+    path_end = {}
     backends = {}
     solver_s = 0.0
     samples = []
     for (name, ob, _), r in zip(obls, res):
         solver_s += r['wall']
         if ob.kind == 'canary':
-            if r['result'] == 'unsat': canary_bad.append(name)
+            if name.endswith('/path-end-canary'):
+                # a proved end-of-path canary means that path is infeasible (not pruned earlier); vacuity = EVERY completed path of a unit is infeasible
+                u_ = name.split('/')[0]
+                pe = path_end.setdefault(u_, [0, 0]); pe[0] += 1
+                if r['result'] == 'unsat': pe[1] += 1
+            elif r['result'] == 'unsat': canary_bad.append(name)
             continue
         st = by_name.setdefault(name, dict(instances=0, proved=0, results=[], models=[]))
         if ob.extra and r['result'] != 'unsat': st.setdefault('details', []).append(str(ob.extra)[:2000])
@@ -103,6 +109,7 @@ def _main(a, prop, seed, t0):
         else:
             st['results'].append(r['result']); st['models'].append(r.get('model'))
             st.setdefault('logs', []).append(r['log'][:6])
+    canary_bad += [u_ + '/every-completed-path-infeasible' for u_, (tot, bad) in path_end.items() if tot > 0 and bad == tot]
     if canary_bad:
         print(f"CHECKER-ERROR property={prop} vacuity canary proved (contradictory assumptions) in: {canary_bad[:5]}")
         return 3
@@ -192,7 +199,7 @@ def _main(a, prop, seed, t0):
                             obligation_names=len(names), names_discharged=len(names) - len(failed), known_finding_obligations_not_discharged=kf_inst,
                             checker_cmd=f"python3-vt -m pyvc.check {prop} --tier {tier}  (portfolio: z3-solver 5.1 python API -> /usr/bin/z3 4.8.12 -> /usr/bin/cvc5 1.0.3; {timeout}s per query)",
                             trusted_base=trusted, backends=backends, solver_s=round(solver_s, 2), generation_s=round(gen_s, 2),
-                            vacuity_canaries=dict(checked=n_canary, proved_false=len(canary_bad)),
+                            vacuity_canaries=dict(checked=n_canary, proved_false=len(canary_bad), infeasible_paths_dropped=sum(b for _, (t_, b) in path_end.items())),
                             functions_under_contract=sorted(info['functions']), functions_inlined=sorted(info['inlined']),
                             units=info['units'], paths=info['paths'], unsupported=info['unsupported'],
                             rejected_paths=[dict(unit=x['unit'], exc=x['exc'], line=x['where']) for x in info['raised']][:40],
